@@ -107,7 +107,7 @@ def run_filter(sv, k, i, n, res):
 def run_e2e(sv, k, i, n, res):
     """Through the parser and the matcher: one document with every tag, one select per range or range list."""
     import bs4
-    ts = words(TSUB, 2) + ['en-latn-DE', 'de-x-a', 'de-a-x-en', 'en-1996-a']
+    ts = words(TSUB, 2) + ['en-latn-DE', 'de-x-a', 'de-a-x-en', 'en-1996-a']      # words() starts with '' (explicitly empty language)
     soup = bs4.BeautifulSoup('', 'html.parser')
     root = soup.new_tag('div')
     soup.append(root)
@@ -118,7 +118,7 @@ def run_e2e(sv, k, i, n, res):
         root.append(p)
         els.append(p)
     rs = words(RSUB, 2) + ['*-*-de', 'en-*-*', 'de-*-a', 'de-x-*', '*-1996', 'de-*-*-DE']
-    lists = [(r,) for r in rs] + [(a, b) for a in rs[1:12] for b in rs[20:26]] + [('en', 'de', 'x-*')]
+    lists = [(r,) for r in rs] + [(a, b) for a in rs[1:12] for b in rs[20:26]] + [('en', 'de', 'x-*'), ('', '*'), ('*', ''), ('', 'en'), ('en', ''), ('*', 'en', ''), ('', '*-*')]
     for li in range(i, len(lists), n):
         ranges = lists[li]
         for quote in ('"', 'bare'):
@@ -147,18 +147,18 @@ def run_e2e(sv, k, i, n, res):
 
 # ---------------------------------------------------------------- determination
 LANGS = (None, '', 'en', 'de-DE')
-DET_SELECTORS = [('lang', ('en',)), ('lang', ('de',)), ('lang', ('',)), ('lang', ('*',)), ('lang', ('fr', 'en-*')),
+DET_SELECTORS = [('lang', ('en',)), ('lang', ('de',)), ('lang', ('',)), ('lang', ('*',)), ('lang', ('fr', 'en-*')), ('lang', ('', '*')), ('lang', ('*', '')),
                  ('fn', 'not', (S.cx(S.cp(None, ('lang', ('en',)))),))]
 
 
 def det_documents(tier):
     """-> list of (name, builder description) ; built lazily by build_det."""
     out = []
-    metas = ('none', 'pragma', 'second')
+    metas = ('none', 'pragma', 'second', 'unrelated-first', 'unrelated-only')
     depth = 3 if tier == 'quick' else 4
     for langs in itertools.product(LANGS, repeat=depth):
         for meta in metas:
-            if tier == 'quick' and meta == 'second' and langs[0] is not None:
+            if tier == 'quick' and meta in ('second', 'unrelated-first', 'unrelated-only') and langs[0] is not None:
                 continue
             for kind in ('html.parser', 'lxml', 'html5lib', 'api', 'xhtml', 'xml'):
                 if kind in ('lxml', 'html5lib') and tier == 'quick' and (sum(x is None for x in langs) + metas.index(meta)) % 2:
@@ -180,6 +180,13 @@ def chain_markup(langs, meta, iframe_at, xml_style=False, xhtml=False):
         head = '<meta http-equiv="content-language" content="fr"%s>' % ('/' if xhtml or xml_style else '')
     elif meta == 'second':
         head = '<meta charset="utf-8"%s><meta http-equiv="Content-Language" content="fr"%s>' % ((('/' if xhtml or xml_style else ''),) * 2)
+    elif meta == 'unrelated-first':
+        sl = '/' if xhtml or xml_style else ''
+        head = ('<meta name="viewport" content="de"%s><meta name="author" content="en"%s><meta http-equiv="content-language" content="fr"%s><meta name="x" content="es"%s>'
+                % (sl, sl, sl, sl))
+    elif meta == 'unrelated-only':
+        sl = '/' if xhtml or xml_style else ''
+        head = '<meta name="viewport" content="de"%s><meta http-equiv="refresh" content="en"%s><meta http-equiv="content-language"%s>' % (sl, sl, sl)
     inner = '<b>x</b>'
     names = ['div', 'section', 'p', 'span']
     for d in range(len(langs) - 1, 0, -1):
